@@ -192,7 +192,7 @@ pub struct QCase {
     pub quant: u8, // 0 plain, 1 all, 2 of
     pub n: u64,
     pub members: Vec<ValSpec>,
-    pub form: u8, // 0 key list, 1 sequence identifier, 2 mapping identifier
+    pub form: u8, // 0 key list, 1 sequence identifier, 2 mapping identifier, 3 identifier that is one key with the list
     pub recipes: Vec<gen::DocRecipe>,
 }
 
@@ -237,6 +237,8 @@ pub fn expand(q: &QCase) -> Vec<Case> {
                 .map(|(i, m)| Block(vec![Entry { key: KeySpec::plain(&field_of(i)), val: m.clone() }]))
                 .collect(),
         ),
+        // the list is all there is to the identifier: all(Q) / of(Q, n) count its members
+        3 => Body::Map(Block(vec![Entry { key: KeySpec::plain(base_field), val: ValSpec::List(q.members.clone()) }])),
         _ => {
             if is_block || k < 2 {
                 // a mapping cannot hold the same key twice: use the sequence form
@@ -366,7 +368,7 @@ fn members() -> BoxedStrategy<Vec<ValSpec>> {
 }
 
 fn qcase() -> BoxedStrategy<QCase> {
-    (0u8..3, 0u64..=6, members(), 0u8..3, prop::collection::vec(gen::doc_recipe(), 6))
+    (0u8..3, 0u64..=6, members(), 0u8..4, prop::collection::vec(gen::doc_recipe(), 6))
         .prop_map(|(quant, n, members, form, recipes)| QCase { quant, n, members, form, recipes })
         .boxed()
 }
@@ -398,14 +400,16 @@ fn palette_cases(max_len: usize) -> Vec<Case> {
             .chain(std::iter::once((1, 0)))
             .chain((0..=l.len() as u64 + 1).map(|n| (2, n)))
         {
-            let q = QCase { quant, n, members: members.clone(), form: 0, recipes: recipes.clone() };
-            for mut c in expand(&q) {
-                c.docs = hays
-                    .iter()
-                    .map(|h| crate::model::DObj(vec![("h".to_string(), crate::model::DocVal::s(h))]))
-                    .chain(std::iter::once(crate::model::DObj::default()))
-                    .collect();
-                out.push(c);
+            for form in [0u8, 3] {
+                let q = QCase { quant, n, members: members.clone(), form, recipes: recipes.clone() };
+                for mut c in expand(&q) {
+                    c.docs = hays
+                        .iter()
+                        .map(|h| crate::model::DObj(vec![("h".to_string(), crate::model::DocVal::s(h))]))
+                        .chain(std::iter::once(crate::model::DObj::default()))
+                        .collect();
+                    out.push(c);
+                }
             }
         }
     }
@@ -481,12 +485,14 @@ fn big_list_cases(tier: &str) -> Vec<Case> {
                 ))
                 .collect();
             for (quant, n) in [(1u8, 0u64), (2, 1), (2, 2), (2, 3), (2, 63), (2, 64), (2, len as u64), (2, 0), (0, 0)] {
-                let q = QCase { quant, n, members: members.clone(), form: 0, recipes: vec![] };
-                for mut c in expand(&q) {
-                    if c.kind == "c08.members" {
-                        c.docs = docs.clone();
-                        c.extra["big"] = json!(true);
-                        out.push(c);
+                for form in [0u8, 3] {
+                    let q = QCase { quant, n, members: members.clone(), form, recipes: vec![] };
+                    for mut c in expand(&q) {
+                        if c.kind == "c08.members" {
+                            c.docs = docs.clone();
+                            c.extra["big"] = json!(true);
+                            out.push(c);
+                        }
                     }
                 }
             }
@@ -499,7 +505,7 @@ pub fn run(tier: &str, seed: u64) -> i32 {
     let mut report = Report::new(ID, tier, seed);
     report.rule = "member lists of length 1..5 (strings of every relation and case flag, regexes, numbers and numeric \
         patterns, booleans, null, nested mappings; homogeneous where the loader requires it) x {plain, all, of(n) \
-        with n = 0..len+1} x {key list, all(X)/of(X,n) over a sequence identifier, over a mapping identifier} x 6 \
+        with n = 0..len+1} x {key list, all(X)/of(X,n) over a sequence identifier, over a mapping identifier, over an identifier that is one key with the list} x 6 \
         recipe documents; plus every list of length <= 2 (thorough: 3) from a 10-pattern palette under every \
         quantifier and threshold against 11 fixed haystacks (exhaustive). Oracle: each member is also loaded as a \
         one-member rule (and its negation, giving a three-valued member result); the quantified verdict must \
